@@ -9,6 +9,8 @@ import (
 	"io"
 	"sync"
 	"time"
+
+	"github.com/markkurossi/mpc/p2p"
 )
 
 // ErrClosed is returned by Read/Write after the pipe was closed.
@@ -43,6 +45,15 @@ type Duplex struct {
 	dir       [2]half // dir[0]: A -> B, dir[1]: B -> A
 	lastWrite time.Time
 	A, B      *End
+	conns     []*p2p.Conn // created by Conns, released by RunPair
+}
+
+// Conns puts a p2p.Conn on each end.  RunPair stops their writer goroutines
+// when the session is over (see Release).
+func (d *Duplex) Conns() (a, b *p2p.Conn) {
+	a, b = p2p.NewConn(d.A), p2p.NewConn(d.B)
+	d.conns = append(d.conns, a, b)
+	return a, b
 }
 
 // End is one end of a Duplex.
